@@ -1,5 +1,6 @@
 import GrVerif.Proofs.Cursor
 import GrVerif.Proofs.MapBound
+import GrVerif.Proofs.DataSafe
 import GrVerif.Proofs.PassBounds
 import GrVerif.Proofs.PassStream
 /-!
@@ -337,7 +338,7 @@ theorem runFSM_live (p : PassT) (c : Ctx) (slot : Nat) {l : List Nat} (hl : Link
 /-! ## constraints -/
 
 theorem runConstraint_safe (k : Code) (c : Ctx) (cell : Nat) {l : List Nat} {so : Option Nat} (hjo : JO c l so)
-    (hsz : c.size + 2 ≤ c.smap.size) (hcl : cell ≤ c.size + 1)
+    (hsz : c.size + 2 ≤ c.smap.size) (hcl : cell ≤ c.size + 1) (hdata : (∀ i ∈ k.instrs, PszOK i) ∧ DataInv k.instrs (initVm k.data))
     {i : Nat} (hcell : c.smap.getD cell none = some i) (hi : i ∈ l) {cur' : Cur} (hk : curRun ⟨0, 1, false⟩ k.instrs = some cur')
     {w : String} (e : runConstraint k c cell = .error w) : ¬ engineFault w := by
   unfold runConstraint at e
@@ -364,14 +365,16 @@ theorem runConstraint_safe (k : Code) (c : Ctx) (cell : Nat) {l : List Nat} {so 
       cases e
       rw [hw] at ht
       intro hf
-      rcases hf with hf | hf
+      rcases hf with hf | hf | hf
       · exact ht hf
       · exact runLoop_noMapFault k.instrs _ hmb hw hf
+      · exact runLoop_data k.instrs _ hdata.2 hdata.1 hw hf
     · split at e
       · cases e; unfold engineFault nullFault mapFault; decide
       · cases e
 
 theorem testConstraint_go_safe (c : Ctx) (k : Code) {l : List Nat} {so : Option Nat} (hjo : JO c l so) (hsz : c.size + 2 ≤ c.smap.size)
+    (hdata : (∀ i ∈ k.instrs, PszOK i) ∧ DataInv k.instrs (initVm k.data))
     (hall : ∀ j, Live l (c.smap.getD j none)) {cur' : Cur} (hk : curRun ⟨0, 1, false⟩ k.instrs = some cur') :
     ∀ (n cell : Nat) {w : String}, cell + n ≤ c.size + 1 → testConstraint.go c k n cell = .error w → ¬ engineFault w := by
   intro n
@@ -388,7 +391,7 @@ theorem testConstraint_go_safe (c : Ctx) (k : Code) {l : List Nat} {so : Option 
         cases e
         cases hy : c.smap.getD cell none with
         | none => rw [hy] at hnn; simp at hnn
-        | some i => exact runConstraint_safe k c cell hjo hsz (by omega) hy (hall cell i hy) hk hw
+        | some i => exact runConstraint_safe k c cell hjo hsz (by omega) hdata hy (hall cell i hy) hk hw
       · split at e
         · cases e
         · exact ih _ (by omega) e
@@ -453,7 +456,7 @@ theorem testConstraint_safe (r : Rule) (c : Ctx) {l : List Nat} {so : Option Nat
           rcases hr.2 with h1 | h1
           · exact absurd h1 hne
           · obtain ⟨cur', hc, _⟩ := codeOK_run h1 hk
-            exact testConstraint_go_safe c k hjo hsz hall hc _ _ (by omega) e
+            exact testConstraint_go_safe c k hjo hsz (mkCode_data hk) hall hc _ _ (by omega) e
 
 theorem pickRule_safe (p : PassT) (c : Ctx) {l : List Nat} {so : Option Nat} (hjo : JO c l so) (hsz : c.size + 2 ≤ c.smap.size)
     (hall : ∀ j, Live l (c.smap.getD j none)) (hp : passOK p = true) :
@@ -623,9 +626,10 @@ theorem findNDoRule_safe (p : PassT) (c : Ctx) (slot : Nat) {l : List Nat} (h : 
             · rename_i w2 hw
               cases e
               intro hf
-              rcases hf with hf | hf
+              rcases hf with hf | hf | hf
               · exact doAction_noNullFault hj hpos hlv hrun hw hf
               · exact doAction_noMapFault hmb hw hf
+              · exact doAction_noData (mkCode_data hk).1 (mkCode_data hk).2 hw hf
             · split at e <;> cases e
   · intro c' s' st e
     split at e
